@@ -427,6 +427,22 @@ def execute(plan):
 
         base, problems, recon = ctx.run(store0, [], "baseline")
         out["evaluations"] += 1
+        # probe: the same text WITHOUT its %import lines (it uses section
+        # types it no longer imports).  What it gives on this schema object
+        # now is what it must give after any failed load -- a failed load
+        # that got as far as its %import leaves nothing behind
+        probe_store = probe_base = None
+        if plan["kind"] == "config" and not plan.get("reuse_loader") \
+                and any(ln.lstrip().lower().startswith("%import")
+                        for t in store0.values() if isinstance(t, str)
+                        for ln in t.split("\n")):
+            probe_store = {u: ("\n".join(
+                ln for ln in t.split("\n")
+                if not ln.lstrip().lower().startswith("%import"))
+                if isinstance(t, str) and not u.startswith("pkgfile:")
+                else t) for u, t in store0.items()}
+            probe_base, _pp, _pr = ctx.run(probe_store, [], "probe-baseline")
+            out["evaluations"] += 1
         for clause, detail in problems:
             violation(clause, detail, {"faults": []}, "none")
         out["log"].append("baseline: %s; recon %r" % (ops.brief(base), recon))
@@ -483,6 +499,18 @@ def execute(plan):
             for clause, detail in problems:
                 violation(clause, "%s (load ended with %s)"
                           % (detail, ops.brief(o)), pt, label, pt2)
+            if probe_store is not None:
+                op_, _pp, _pr = ctx.run(probe_store, [], "probe")
+                out["evaluations"] += 1
+                if not same(op_, probe_base):
+                    violation("rerun-differs",
+                              "after the failed load a text that uses the "
+                              "component's section types WITHOUT importing "
+                              "them gives %s; before any failure it gave %s"
+                              % (ops.brief(op_), ops.brief(probe_base)),
+                              pt, label, pt2)
+                out["probes"]["use-without-import-probe"] = out[
+                    "probes"].get("use-without-import-probe", 0) + 1
             # (4) fault-free rerun
             o2, problems2, _rec2 = ctx.run(store0, [], "rerun")
             out["evaluations"] += 1
